@@ -178,6 +178,30 @@ func (m *c01Mon) dump(inflight []int) string {
 	return fmt.Sprintf("flag=%d statics=%s varying=%s inflight=%s", b(flag), joinInts(st), joinStrs(vs), joinInts(inflight))
 }
 
+// lockedOracle: the monitor-level form of "no Event before the Synchronization step has completed":
+// as long as the unlock has not begun, no informer of the monitor passes events on.
+func (m *c01Mon) lockedOracle(c *Case) {
+	_, statics, varying, _ := kem.VerifMonitorState(m.mon)
+	n := 0
+	for _, en := range statics {
+		if en {
+			n++
+		}
+	}
+	for _, l := range varying {
+		for _, en := range l {
+			if en {
+				n++
+			}
+		}
+	}
+	begun := 0
+	if m.eaDone != nil {
+		begun = 1
+	}
+	c.Oracle(fmt.Sprintf("m-locked unlockBegun=%d enabled=%d", begun, n))
+}
+
 // waitPoint waits for the next arrival whose name has the given prefix; other arrivals of this key
 // (there are none in a well-formed schedule) are released.
 func (m *c01Mon) waitPoint(prefix string, d time.Duration) *verifsched.Arrival {
@@ -244,6 +268,7 @@ func c01MonRun(c *Case, static bool, initial []int, script []string) {
 	sentinel := 900
 	_ = m.mon.Snapshot() // the Synchronization view: everything created from here on is a later change
 	c.Op(fmt.Sprintf("m init statics=%d ns=%s", ns, joinInts(initial)), m.dump(nil))
+	m.lockedOracle(c)
 	for _, a := range script {
 		f := strings.Fields(a)
 		var r string
@@ -378,6 +403,7 @@ func c01MonRun(c *Case, static bool, initial []int, script []string) {
 			a = "nsStore " + f[1] // `early` / `again` are not protocol matters: the model abstracts from objects
 		}
 		c.Op("m "+a, m.dump(inflight))
+		m.lockedOracle(c)
 	}
 	// everything has settled: no more scheduling
 	// change something in every namespace of the monitor
@@ -548,6 +574,11 @@ func runC01Monitor(r *Run) {
 		c.Desc = "corpus: a namespace that existed at start is deleted and created again while the binding is still locked"
 		c.Nontrivial = true
 		c01MonRun(c, false, []int{1, 2}, []string{"nsDel 1", "ea-begin", "nsStore 1 again", "ea", "nsRead 1", "ea-range", "ea-end"})
+	})
+	r.One(4, func(c *Case, rng *Rng) {
+		c.Desc = "corpus: NO matching namespace at start; the first one appears (with an object) before the unlock has begun"
+		c.Nontrivial = true
+		c01MonRun(c, false, nil, []string{"nsStore 1 early", "nsRead 1", "nsStore 2", "nsRead 2", "ea-begin", "ea", "ea-range", "ea-end"})
 	})
 	n := r.N(40, 600)
 	r.Cases(500000, n, 8, func(c *Case, rng *Rng) {
